@@ -1,25 +1,10 @@
-"""C06: seeded runs reproducible, isolated from the global RNG, shared draws -- thin wrapper over harness/core_runs.py (shared scripted-tape runs of the unstratified tests)."""
-from .. import core_runs as CR
-from ..core_runs import COQ_HEADER, run, to_coq, extra_terms, nontrivial, key, SKIPPED
+"""C06: seeded runs reproducible, isolated, shared draws -- wrapper over harness/all_rand.py (scripted-tape runs of the unstratified and stratified tests and helpers)."""
+from .. import all_rand as AR
+from ..all_rand import COQ_HEADER, run, to_coq, extra_terms, nontrivial, key, cases, SKIPPED
 
-RULE = ('same runs as C01: numpy global state compared before/after every seeded call; equal int seeds under different global states; int seed vs SHA256(seed); RandomState replay; draws requested are independent of data and statistic (tape consumption predicted by the model from sizes only)')
-ASSUMPTIONS = CR_ASSUMPTIONS = [
+RULE = ("all scripted and real-seed runs: numpy's global state compared before/after every seeded call; equal int seeds under different global states; int seed vs SHA256(seed); RandomState replay; the bounds of the draws requested are predicted from sizes/stratification alone (model tape consumption; permute_within_groups one Fisher-Yates pass per group whatever the values)")
+ASSUMPTIONS = [
     "the generator is driven through a scripted subclass of cryptorandom.SHA256 (harness/tape.py): requests are answered lazily and logged; the same answers are replayed for the keep_dist twin",
-    "data are small integers times the product of the group sizes times a power of two (optionally plus a large offset), so every named float statistic is exact in binary64",
-    "SHA-256 / Mersenne-Twister output is assumed uniform (real-seed runs check reproducibility and the p-value assembly only)"]
-ALLOWED = ['irreproducible', 'int-vs-sha256', 'randomstate-replay', 'global-rng', 'keepdist-draws']
-FOCUS = None
-
-
-def cases(tier, rng, dist):
-    return CR.cases(tier, rng, dist, focus=FOCUS)
-
-
-def oracle(c, o):
-    r = CR.oracle(c, o)
-    if r is None:
-        return None
-    suffix = r["cls"].split(":", 1)[1] if ":" in r["cls"] else r["cls"]
-    if suffix in ALLOWED or suffix in ("raises", "harness-exception"):
-        return r
-    return None
+    "data are exactly representable (small integers times group-size products times powers of two, optional large offsets), so named float statistics are exact; 't'-type statistics are black boxes checked through dist",
+    "SHA-256 / Mersenne-Twister output is assumed uniform; condition.argsort() is an oracle input of the model"]
+oracle = AR.filtered_oracle(['irreproducible', 'int-vs-sha256', 'randomstate-replay', 'global-rng', 'keepdist-draws', 'draws-depend-on-data'])
